@@ -133,6 +133,8 @@ pub struct Ctx {
     /// Probability (permille) that woken helper threads are passed over at a hand-over point (slow helper).
     pub helper_skip_permille: u32,
     helper_skips_in_row: u32,
+    /// Bound on consecutive pass-overs of woken helper threads.
+    pub helper_skip_cap: u32,
     pub port_space: u32,
     h3_calls: u32,
     pub run_index: u64,
@@ -531,7 +533,7 @@ fn run_helpers() {
         // A slow helper thread: woken helpers are passed over for a bounded number of hand-over points.
         {
             let mut c = shared.lock().unwrap();
-            if c.helper_skip_permille > 0 && c.helper_skips_in_row < 64 && c.aborted.is_none() {
+            if c.helper_skip_permille > 0 && c.helper_skips_in_row < c.helper_skip_cap && c.aborted.is_none() {
                 let d = c.draw(1000);
                 if d >= 1000 - c.helper_skip_permille {
                     c.helper_skips_in_row += 1;
@@ -759,6 +761,7 @@ where
         helper_handovers: 0,
         helper_skip_permille: 0,
         helper_skips_in_row: 0,
+        helper_skip_cap: 64,
         port_space: 0,
         h3_calls: 0,
         run_index: rc.index,
@@ -859,10 +862,13 @@ pub fn draw_sched_policy() {
     let permille = pick(&[0u32, 0, 20, 100, 300, 600]);
     let slow = pick(&[0u32, 0, 0, 50, 200]);
     let helper_skip = pick(&[0u32, 0, 0, 0, 500, 950]);
+    // A very slow helper (thousands of task polls pass before it runs) lets its input queue fill up.
+    let helper_cap = if helper_skip > 0 { pick(&[64u32, 64, 3000]) } else { 64 };
     with(|c| {
         c.defer_permille = permille;
         c.slow_permille = slow;
         c.helper_skip_permille = helper_skip;
+        c.helper_skip_cap = helper_cap;
     });
     mix_plan(permille as u64 * 1000 + slow as u64 + helper_skip as u64 * 1_000_000);
 }
